@@ -6,9 +6,12 @@ TXT partitions, SCSV placements, all DNSKEY flag words, MySQL words with unknown
 Oracle: parse -> compose -> parse -> equal, consumes all, compose again gives the same bytes.
 """
 import itertools
+import re
 
 from mc import bytefam, canon, classes, core
 from mc.props import c01, c02
+
+_FULL_DATE = re.compile(rb'\d{1,2}[ -][A-Za-z]{3}[ -]\d{2,4} \d\d:\d\d:\d\d|[A-Za-z]{3} [ \d]\d \d\d:\d\d:\d\d \d{4}')
 
 
 def check_input(acc, cls, qn, data, tag):
@@ -62,8 +65,13 @@ def check_input(acc, cls, qn, data, tag):
     if d1 != d2:
         dp = canon.first_diff(d1, d2)
         own = c01.owner_of(o1, dp)
+        kind = canon.diff_kind(d1, d2)
+        if kind.startswith('dt') and not _FULL_DATE.search(bytes(data)):
+            # no complete date in the input: dateutil completed it from the current date (a different root cause
+            # than time-zone arithmetic on a complete date, and not deterministic from day to day)
+            kind += ':partial_date_text'
         acc.violation('meaning_changed:%s:%s:%s' % (c01.compose_definer(own), c01.generic_path(dp).rsplit('.', 1)[-1],
-                                                    canon.diff_kind(d1, d2)),
+                                                    kind),
                       'parse(compose(parse(input))) differs from parse(input) at %s' % dp, dict(w, recomposed=b2))
         return True
     try:
